@@ -639,16 +639,16 @@ pub fn run(args: &Args) {
             jobs.push(Job::Gk(ki, li));
         }
     }
-    for oi in 0..args.tier.pick(4, 12) {
+    for oi in 0..args.tier.pick(4, 24) {
         jobs.push(Job::Sgk(oi));
     }
-    for oi in 0..args.tier.pick(4, 12) {
+    for oi in 0..args.tier.pick(4, 24) {
         jobs.push(Job::Psk(oi));
     }
     for li in 0..LENS.len() {
         jobs.push(Job::Tm(li));
     }
-    for oi in 0..args.tier.pick(4, 16) {
+    for oi in 0..args.tier.pick(4, 32) {
         jobs.push(Job::Stk(oi));
     }
     let tally = jobs
@@ -674,8 +674,10 @@ pub fn run(args: &Args) {
     rep.set("exhaustive", true);
     rep.assume("binding property only, DefaultCipherSuite with deterministic keys and nonces; nothing cryptographic is claimed");
     rep.assume("apq version and topic are treated as context components of topic keys although the statement's parenthesis does not list them");
-    for c in ["accepted_untouched", "rejected_by_auth", "context_replacements", "ciphertext_corruptions", "encap_corruptions", "boundary_move_cases", "group_key_cases", "sealed_group_key_cases", "psk_seed_cases", "topic_message_cases", "sealed_topic_key_cases"] {
-        rep.require_nonzero(c);
-    }
+    guards(
+        &mut rep,
+        &["sealed_objects", "context_replacements", "ciphertext_corruptions", "encap_corruptions", "boundary_move_cases", "group_key_cases", "sealed_group_key_cases", "psk_seed_cases", "topic_message_cases", "sealed_topic_key_cases"],
+        &["accepted_untouched", "rejected_by_auth"],
+    );
     rep.finish()
 }
